@@ -165,8 +165,21 @@ fn root_cases(sh: Shape, signed: bool) -> BoxedStrategy<(Pat, u32)> {
         let x = if x.bit_len() > maxbits { top } else { x };
         (wrap(if neg && signed && n % 2 == 1 { x.neg() } else { x }), n)
     });
+    // the extreme values with the degrees for which the root is the value itself or has magnitude 1
+    let extremes = (prop_oneof![Just(1u32), Just(1), Just(3), Just(5), Just(sh.bits() - 1), Just(sh.bits() + 1), Just(u32::MAX)], 0u8..6).prop_map(move |(n, which)| {
+        let z = match which {
+            0 => if signed { Z::pow2(maxbits).neg() } else { Z::zero() },
+            1 => if signed { Z::pow2(maxbits).neg().add_i(1) } else { Z::one() },
+            2 => if signed { Z::from_i64(-1) } else { Z::from_i64(2) },
+            3 => Z::pow2(maxbits).add_i(-1),
+            4 => Z::zero(),
+            _ => Z::one(),
+        };
+        let n = if z.is_neg() && n % 2 == 0 { n - 1 } else { n };
+        (wrap(z), n)
+    });
     let top = (degrees, 0u64..4).prop_map(move |(n, k)| (wrap(Z::pow2(maxbits).add_i(-1 - k as i64)), n));
-    prop_oneof![5 => exact, 4 => between, 4 => general, 1 => top].boxed()
+    prop_oneof![5 => exact, 4 => between, 4 => general, 1 => top, 1 => extremes].boxed()
 }
 
 fn eval_roots<T: NT>(c: &(Pat, u32), obs: &mut Obs) -> Result<(), String> {
@@ -332,7 +345,7 @@ fn main() {
     runner::main(
         Property {
             id: "C18",
-            rule: "All methods are called through the traits (UFCS). Division pairs: structured patterns, small divisors of both signs, divisors of reduced magnitude; gcd/lcm: (g*x, g*y) with small cofactors and shared powers of two, equal operands, zero, powers of two; roots: x in {r^n, r^n +- 1, r^n + delta strictly between consecutive powers (r = 2^k, 2^k * small or a structured pattern of any size; delta = gap-1, gap/2, uniform, small), top of the range, structured patterns} below and above 2^128 with degrees {1, 2, 3, 4, 5, 7, 8, 16, 40, 63, 64, 65, uniform < 80, uniform <= BITS + 2, BITS-1, BITS, BITS+1, 2^31, u32::MAX}, negative x with odd degrees. Oracle: reference integer (floor division with the remainder taking the divisor's sign, truncating div_rem, Euclid, gcd >= 0, lcm = |a*b|/gcd when representable); roots are VERIFIED on the returned value (r^n <= |x| < (r+1)^n, sign preserved), which is a complete oracle by uniqueness; signed_/unsigned_ shifts against arithmetic / logical shifts of the pattern; MulAdd when representable; Bounded/Zero/One/Num/Pow and the Checked*/Wrapping*/Saturating*/Overflowing* forwarders against the inherent methods; a panic is a violation whenever the result is representable. At 8/32/64/128 bits num-integer's own impls for the primitive of equal width are a second oracle. NON-TRIVIAL: div_floor/mod_floor with operands of opposite sign and non-zero remainder; roots with x >= 2^128 or degree >= 4; gcd with both operands >= 2 digits; every forwarder case. distinct = distinct (profile, job, inputs) by 64-bit hash.",
+            rule: "All methods are called through the traits (UFCS). Division pairs: structured patterns, small divisors of both signs, divisors of reduced magnitude; gcd/lcm: (g*x, g*y) with small cofactors and shared powers of two, equal operands, zero, powers of two; roots: x in {r^n, r^n +- 1, r^n + delta strictly between consecutive powers (r = 2^k, 2^k * small or a structured pattern of any size; delta = gap-1, gap/2, uniform, small), top of the range, MIN / MIN+1 / -1 / MAX / 0 / 1 with degrees {1, 3, 5, BITS-1, BITS+1, u32::MAX}, structured patterns} below and above 2^128 with degrees {1, 2, 3, 4, 5, 7, 8, 16, 40, 63, 64, 65, uniform < 80, uniform <= BITS + 2, BITS-1, BITS, BITS+1, 2^31, u32::MAX}, negative x with odd degrees. Oracle: reference integer (floor division with the remainder taking the divisor's sign, truncating div_rem, Euclid, gcd >= 0, lcm = |a*b|/gcd when representable); roots are VERIFIED on the returned value (r^n <= |x| < (r+1)^n, sign preserved), which is a complete oracle by uniqueness; signed_/unsigned_ shifts against arithmetic / logical shifts of the pattern; MulAdd when representable; Bounded/Zero/One/Num/Pow and the Checked*/Wrapping*/Saturating*/Overflowing* forwarders against the inherent methods; a panic is a violation whenever the result is representable. At 8/32/64/128 bits num-integer's own impls for the primitive of equal width are a second oracle. NON-TRIVIAL: div_floor/mod_floor with operands of opposite sign and non-zero remainder; roots with x >= 2^128 or degree >= 4; gcd with both operands >= 2 digits; every forwarder case. distinct = distinct (profile, job, inputs) by 64-bit hash.",
             assumptions: &[
                 "gcd/lcm whose value is unrepresentable, even roots of negative numbers, degree 0, is_multiple_of(0), NumCast::from and (MIN, -1) are outside the property",
                 "the arithmetic forwarders are compared with the inherent methods, whose own correctness is C01-C08",
